@@ -39,10 +39,17 @@ HOSTILE_ENV = {
 def runner(state, proto):
     r = _RUNNERS.get((state, proto))
     if r is None:
-        if state in HOSTILE_ENV:
-            r = LineRunner('selected', proto, **HOSTILE_ENV[state])
+        backend = 'dict'
+        if '@' in state:
+            # 'selected@++': the same state on a maildir backend
+            state_, backend = state.split('@')
         else:
-            r = LineRunner(state, proto)
+            state_ = state
+        if state_ in HOSTILE_ENV:
+            r = LineRunner('selected', proto, backend=backend,
+                           **HOSTILE_ENV[state_])
+        else:
+            r = LineRunner(state_, proto, backend=backend)
         _RUNNERS[(state, proto)] = r
     return r
 
@@ -230,6 +237,11 @@ def build_tasks(tier):
     by_state = {}
     for st, line in E.template_lines(pairs=True):
         by_state.setdefault(st, []).append(b'a ' + line + b'\r\n')
+    # the same lines against the maildir backend (real files)
+    for layout in (('++',) if tier == 'quick' else ('++', 'fs')):
+        for st in ('auth', 'selected'):
+            for ch in chunks(by_state.get(st, []), 150):
+                T.append(('template', f'{st}@{layout}', 'imap', ch))
     for st, lines in by_state.items():
         for ch in chunks(lines, 300):
             T.append(('template', st, 'imap', ch))
@@ -317,7 +329,9 @@ def run(*, tier, seed, jobs, progress, opts, prop=PROP, extra_tasks=None,
     kinds = {}
     per_family = {}
     distinct = 0
-    with mp.get_context('fork').Pool(njobs, maxtasksperchild=20) as pool:
+    from ..worlds import scratch_parent
+    with scratch_parent(), \
+            mp.get_context('fork').Pool(njobs, maxtasksperchild=20) as pool:
         for k, (vs, n, kd, nd) in enumerate(
                 pool.imap_unordered(_dispatch, tasks)):
             violations += vs
@@ -353,8 +367,9 @@ def run(*, tier, seed, jobs, progress, opts, prop=PROP, extra_tasks=None,
            'exhaustive': True}
     return finish(prop, tier=tier, seed=seed, level='exploration',
                   coverage=cov, violations=violations, t0=t0, assumptions=[
-                      'dict backend with demo data; lines shorter than the '
-                      '64 KiB stream limit',
+                      'dict backend with demo data (templates x hostile slots '
+                      'also on the maildir backend, real files); lines shorter '
+                      'than the 64 KiB stream limit',
                       'a line whose announced literal is longer than the '
                       'bytes supplied leaves the server legitimately waiting',
                       'per-input CPU watchdog 5 s; step budget 50 000 handles'])
